@@ -543,9 +543,16 @@ func kindsOf(ops []hop, before []contents) string {
 }
 
 func describeWorld(w *world) string {
-	p := make([]string, len(w.ids))
-	for i, id := range w.ids {
+	n := len(w.ids)
+	if n > 24 {
+		n = 24
+	}
+	p := make([]string, n)
+	for i, id := range w.ids[:n] {
 		p[i] = fmt.Sprintf("%d=%x", i, id)
+	}
+	if n < len(w.ids) {
+		p = append(p, fmt.Sprintf("… (%d ids)", len(w.ids)))
 	}
 	return "ids(hex): " + strings.Join(p, " ")
 }
@@ -820,6 +827,8 @@ func pickParams(r *corr.Run) (df, thr int) {
 }
 
 func runC07(r *corr.Run, m *modelSession, only bool) {
+	// (0) size-directed asymmetric cases (one side on / above the powers of two up to 2^18)
+	runSizes(r)
 	// (i) exhaustive block over a tiny universe
 	exhaustiveC07(r, m)
 	// (i') fix-width: universes concentrated in ranges of width 1, 2, df-1, df, df+1
@@ -992,6 +1001,8 @@ func exhaustiveC07(r *corr.Run, m *modelSession) {
 }
 
 func runC08(r *corr.Run, m *modelSession, only bool) {
+	// (0) size thresholds: an incrementally built large index against the one-call index
+	runSizesC08(r)
 	// larger histories, oracle only
 	m.pause()
 	for k := 0; r.TimeLeft() && k < r.Pick(6, 150); k++ {
